@@ -10,7 +10,7 @@ func init() {
 }
 
 func planC03(c *Ctx) epochPlan {
-	seeds := []string{"xor", "evolved", "disc", "rand", "randrec"}
+	seeds := []string{"xor", "evolved", "read", "disc", "rand", "randrec", "hb4"}
 	modes := []string{"phase", "whole", "perspecies"}
 	fits := []int{0, 1, 2, 5, 6}
 	pl := epochPlan{prop: "C03", oracles: oLedger}
